@@ -47,6 +47,48 @@ def _annotation_known(node: Optional[ast.AST]) -> bool:
     return node is not None and ast.unparse(node) not in ("Any", "typing.Any", "object")
 
 
+_OPTIONAL_MEMBERS: Dict[str, Dict[str, bool]] = {}
+
+
+def optional_member(cls, attr: str) -> bool:
+    """Is ``<instance of cls>.attr`` declared Optional (annotated field or property)?"""
+    table = _OPTIONAL_MEMBERS.setdefault(cls.qualname, {})
+    if attr in table:
+        return table[attr]
+    verdict = False
+    decided = False
+    for klass in cls.mro or [cls]:
+        method = klass.methods.get(attr)
+        if method is not None:
+            if method.kind == "property":
+                verdict = _is_optional_annotation(getattr(method.node, "returns", None))
+            decided = True
+            break
+        for stmt in klass.node.body:
+            if isinstance(stmt, ast.AnnAssign) and isinstance(stmt.target, ast.Name) and stmt.target.id == attr:
+                verdict, decided = _is_optional_annotation(stmt.annotation), True
+        if decided:
+            break
+        for method in klass.methods.values():
+            if not method.params:
+                continue
+            me = method.params[0]
+            for node in walk_local(method.node):
+                if isinstance(node, ast.AnnAssign) and isinstance(node.target, ast.Attribute) and node.target.attr == attr and isinstance(node.target.value, ast.Name) and node.target.value.id == me:
+                    verdict, decided = _is_optional_annotation(node.annotation), True
+        if decided:
+            break
+    table[attr] = verdict
+    return verdict
+
+
+def chain_key(expr: ast.AST) -> Optional[str]:
+    """'a.b.c' for a pure name/attribute chain with at least one attribute"""
+    if isinstance(expr, ast.Attribute):
+        return dotted(expr)
+    return None
+
+
 class NonNull:
     def __init__(self, prog: Program, func: FuncInfo):
         self.prog = prog
@@ -55,8 +97,10 @@ class NonNull:
         self.sites = {id(site.node): site for site in prog.sites_in(func)}
         self.reports: List[Tuple[ast.AST, str, str]] = []  # (node, name, how)
         self._seen: Set[Tuple[int, str]] = set()
+        self.members = True  # also follow Optional fields / properties reached through name.attr chains
         self.tracked: Set[str] = set()  # names that may be None somewhere in the function
         self.checked: Set[Tuple[int, int, str]] = set()  # dereference sites of tracked names (line, col, name)
+        self._pending_chain_reports: Set[Tuple[int, str]] = set()
 
     # --------------------------------------------------------------- expression level
     def may_be_none(self, expr: ast.AST, state: FrozenSet[str]) -> bool:
@@ -64,6 +108,9 @@ class NonNull:
             return expr.value is None
         if isinstance(expr, ast.Name):
             return expr.id in state
+        if isinstance(expr, ast.Attribute):
+            key = chain_key(expr)
+            return key is not None and self.chain_is_optional(expr) and "!" + key not in state
         if isinstance(expr, ast.IfExp):
             true_state, false_state = self.narrow(expr.test, state)
             return self.may_be_none(expr.body, true_state) or self.may_be_none(expr.orelse, false_state)
@@ -114,9 +161,21 @@ class NonNull:
             return frozenset(true_union), current
         if isinstance(test, ast.Name):
             return state - {test.id}, state
+        if isinstance(test, ast.Attribute) and self.chain_is_optional(test):
+            return state | {"!" + (chain_key(test) or "")}, state
         if isinstance(test, ast.NamedExpr) and isinstance(test.target, ast.Name):
             with_target = state | {test.target.id} if self.may_be_none(test.value, state) else state - {test.target.id}
             return with_target - {test.target.id}, with_target
+        if isinstance(test, ast.Compare) and len(test.ops) == 1 and isinstance(test.left, ast.Attribute) and self.chain_is_optional(test.left):
+            right = test.comparators[0]
+            known = state | {"!" + (chain_key(test.left) or "")}
+            if isinstance(right, ast.Constant) and right.value is None:
+                if isinstance(test.ops[0], (ast.IsNot, ast.NotEq)):
+                    return known, state
+                if isinstance(test.ops[0], (ast.Is, ast.Eq)):
+                    return state, known
+            if isinstance(test.ops[0], (ast.Eq, ast.Is)) and not self.may_be_none(right, state):
+                return known, state
         if isinstance(test, ast.Compare) and len(test.ops) == 1 and isinstance(test.left, ast.Name):
             right = test.comparators[0]
             if isinstance(right, ast.Constant) and right.value is None:
@@ -128,6 +187,8 @@ class NonNull:
                 return state - {test.left.id}, state  # equal to something that is not None
         if isinstance(test, ast.Call) and dotted(test.func) == "isinstance" and test.args and isinstance(test.args[0], ast.Name):
             return state - {test.args[0].id}, state
+        if isinstance(test, ast.Call) and dotted(test.func) == "isinstance" and test.args and isinstance(test.args[0], ast.Attribute) and self.chain_is_optional(test.args[0]):
+            return state | {"!" + (chain_key(test.args[0]) or "")}, state
         return state, state
 
     def check_expr(self, expr: Optional[ast.AST], state: FrozenSet[str]) -> FrozenSet[str]:
@@ -206,7 +267,7 @@ class NonNull:
 
     def _arguments(self, call: ast.Call, site, state: FrozenSet[str]) -> FrozenSet[str]:
         for index, arg in enumerate(call.args):
-            if not isinstance(arg, ast.Name) or arg.id not in state:
+            if not (isinstance(arg, (ast.Name, ast.Attribute)) and self.may_be_none(arg, state)):
                 continue
             verdicts = []
             for target in site.targets:
@@ -228,7 +289,7 @@ class NonNull:
             if verdicts and all(v is True for v in verdicts):
                 state = self.deref(arg, call, state, f"argument {index + 1} of {site.targets[0].short}, whose parameter is not Optional")
         for keyword in call.keywords:
-            if keyword.arg is None or not isinstance(keyword.value, ast.Name) or keyword.value.id not in state:
+            if keyword.arg is None or not (isinstance(keyword.value, (ast.Name, ast.Attribute)) and self.may_be_none(keyword.value, state)):
                 continue
             verdicts = []
             for target in site.targets:
@@ -239,7 +300,24 @@ class NonNull:
                 state = self.deref(keyword.value, call, state, f"argument '{keyword.arg}' of {site.targets[0].short}, whose parameter is not Optional")
         return state
 
+    def chain_is_optional(self, expr: ast.AST) -> bool:
+        if not self.members or not isinstance(expr, ast.Attribute):
+            return False
+        owner = self.prog.infer(self.func, expr.value)
+        return bool(owner and owner[0] == "cls" and optional_member(owner[1], expr.attr))
+
     def deref(self, operand: ast.AST, where: ast.AST, state: FrozenSet[str], how: str) -> FrozenSet[str]:
+        key = chain_key(operand)
+        if key is not None and self.chain_is_optional(operand):
+            self.checked.add((getattr(operand, "lineno", 0), getattr(operand, "col_offset", 0), key))
+            self.tracked.add(key)
+            if "!" + key not in state:
+                mark = (getattr(where, "lineno", 0), key)
+                if mark not in self._seen:
+                    self._seen.add(mark)
+                    self.reports.append((where, key, how))
+                self._pending_chain_reports.add(mark)
+            return state | {"!" + key}
         if isinstance(operand, ast.Name):
             self.checked.add((getattr(operand, "lineno", 0), getattr(operand, "col_offset", 0), operand.id))
         if isinstance(operand, ast.Name) and operand.id in state:
@@ -303,7 +381,20 @@ class NonNull:
 
     def _bind(self, target: ast.AST, value: ast.AST, state: FrozenSet[str]) -> FrozenSet[str]:
         if isinstance(target, ast.Name):
-            return state | {target.id} if self.may_be_none(value, state) else state - {target.id}
+            maybe = self.may_be_none(value, state)
+            prefix = "!" + target.id + "."
+            state = frozenset(item for item in state if not item.startswith(prefix))  # what was known about x.* is void
+            return state | {target.id} if maybe else state - {target.id}
+        if isinstance(target, ast.Attribute):
+            key = chain_key(target)
+            state = self.check_expr(target.value, state)
+            if key is not None:
+                maybe = self.may_be_none(value, state)
+                prefix = "!" + key + "."
+                state = frozenset(item for item in state if not item.startswith(prefix))
+                if self.chain_is_optional(target):
+                    return state - {"!" + key} if maybe else state | {"!" + key}
+            return state
         if isinstance(target, (ast.Tuple, ast.List)):
             if isinstance(value, (ast.Tuple, ast.List)) and len(value.elts) == len(target.elts):
                 for sub_target, sub_value in zip(target.elts, value.elts):
@@ -327,7 +418,7 @@ class NonNull:
         for arg, default in list(zip(positional, defaults)) + list(zip(arguments.kwonlyargs, arguments.kw_defaults)):
             if _is_optional_annotation(arg.annotation) or (isinstance(default, ast.Constant) and default.value is None and arg.annotation is None):
                 initial.add(arg.arg)
-        if not initial and not any(isinstance(n, ast.Constant) and n.value is None for n in walk_local(node)) and not self._optional_calls():
+        if not initial and not any(isinstance(n, ast.Constant) and n.value is None for n in walk_local(node)) and not self._optional_calls() and not self._optional_members():
             return []
         in_state: Dict[int, FrozenSet[str]] = {self.cfg.entry: frozenset(initial)}
         work = [self.cfg.entry]
@@ -345,17 +436,25 @@ class NonNull:
                 else:
                     new = self.edge_state(cfg_node, label, out)
                 old = in_state.get(succ)
-                merged = new if old is None else old | new
+                if old is None:
+                    merged = new
+                else:
+                    merged = frozenset({i for i in old | new if not i.startswith("!")} | {i for i in old & new if i.startswith("!")})
                 if old is None or merged != old:
                     in_state[succ] = merged
                     work.append(succ)
         for state in in_state.values():
-            self.tracked |= state
+            self.tracked |= {item for item in state if not item.startswith("!")}
         return self.reports
 
     def guarded_sites(self) -> int:
         """dereference sites of names that may be None somewhere in the function (each one an obligation)"""
         return sum(1 for _line, _col, name in self.checked if name in self.tracked)
+
+    def _optional_members(self) -> bool:
+        if not self.members:
+            return False
+        return any(isinstance(n, ast.Attribute) and self.chain_is_optional(n) for n in walk_local(self.func.node))
 
     def _optional_calls(self) -> bool:
         for site in self.prog.sites_in(self.func):
